@@ -23,6 +23,11 @@ const SEP: char = '\u{1e}';
 const COMPILE_CLOCK: u64 = 1_700_000_000;
 const MAX_STEPS: usize = 20_000;
 
+/// Step cap of one execution: generous multiple of the sequential run's event count.
+fn step_cap(prep: &Prepared) -> usize {
+    MAX_STEPS.max(prep.seq_events * 40)
+}
+
 #[derive(Clone, Debug)]
 pub struct Workload {
     pub expr: String,
@@ -35,6 +40,11 @@ pub struct Workload {
     /// None: unbuffered ports; Some(cap): block-buffered ports of this capacity
     pub buffer_cap: Option<usize>,
     pub flush_resets_first: bool,
+    /// the expression uses a construct the pinned tree refuses or emits unreadably (`-ls`, `\c`):
+    /// such workloads are expected to be set aside today and are not counted as generator drift
+    pub probe: bool,
+    /// budget (scheduler decisions) for which a thread doing a large write stays blocked
+    pub stall_large_writes: Option<usize>,
 }
 
 fn file_to_json(f: &FileRec) -> Value {
@@ -97,6 +107,8 @@ impl Workload {
             "hash_key": self.hash_key,
             "buffer_cap": self.buffer_cap,
             "flush_resets_first": self.flush_resets_first,
+            "probe": self.probe,
+            "stall_large_writes": self.stall_large_writes,
         })
     }
 
@@ -116,6 +128,8 @@ impl Workload {
             hash_key: v["hash_key"].as_u64().ok_or("workload: missing hash_key")?,
             buffer_cap: v["buffer_cap"].as_u64().map(|c| c as usize),
             flush_resets_first: v["flush_resets_first"].as_bool().unwrap_or(false),
+            probe: v["probe"].as_bool().unwrap_or(false),
+            stall_large_writes: v["stall_large_writes"].as_u64().map(|x| x as usize),
         })
     }
 }
@@ -179,7 +193,40 @@ fn gen_file(rng: &mut Rng, i: usize, pattern_pool: usize) -> FileRec {
     }
 }
 
+/// A scan with real data volume: hundreds of files with long names, so that a run emits
+/// 100-400 KiB — thresholds such as a pipe's capacity (64 KiB) or PIPE_BUF are crossed, and
+/// large writes may block (stall) half-way.
+fn volume_workload(rng: &mut Rng, tier: Tier) -> Workload {
+    let mut w = workload_inner(rng, tier, true);
+    let n_files = rng.range(300, 1200) as usize;
+    let pad: String = std::iter::repeat("projects/climate/ensemble-0042/member/").take(rng.range(2, 6) as usize).collect();
+    w.files = (0..n_files)
+        .map(|i| {
+            let mut f = gen_file(rng, i, 8);
+            f.rel_path = format!("d{i}/{pad}{}", f.name);
+            f.abs_path = format!("/mnt/lustre/{}", f.rel_path);
+            f
+        })
+        .collect();
+    w.threads = *rng.pick(&[2usize, 2, 3]);
+    w.partition = vec![vec![]; w.threads];
+    for f in 0..n_files {
+        w.partition[rng.usize_below(w.threads)].push(f);
+    }
+    w.max_chunks = *rng.pick(&[2usize, 3, 3]);
+    w.buffer_cap = *rng.pick(&[None, None, Some(4096)]);
+    w.stall_large_writes = Some(*rng.pick(&[200usize, 2000, 20_000]));
+    w
+}
+
 pub fn workload(rng: &mut Rng, tier: Tier) -> Workload {
+    if rng.chance(1, if tier == Tier::Thorough { 250 } else { 400 }) {
+        return volume_workload(rng, tier);
+    }
+    workload_inner(rng, tier, false)
+}
+
+fn workload_inner(rng: &mut Rng, tier: Tier, volume: bool) -> Workload {
     let framed_pool = [
         ActionKind::Print,
         ActionKind::Print0,
@@ -219,7 +266,16 @@ pub fn workload(rng: &mut Rng, tier: Tier) -> Workload {
     if rng.chance(3, 20) {
         actions.push(ActionKind::Quit);
     }
-    let bare = rng.chance(1, 3);
+    // probes: constructs the pinned compiler refuses (`-ls`, `-fls`) or emits unreadably (`\c`)
+    let mut probe = false;
+    if rng.chance(1, 60) {
+        probe = true;
+        let at = rng.usize_below(actions.len() + 1);
+        actions.insert(at, if plain || rng.chance(1, 2) { ActionKind::Ls } else { ActionKind::FLs });
+    }
+    let risky = rng.chance(1, 100);
+    probe |= risky;
+    let bare = volume || rng.chance(1, 3);
     // many definitions in front of the printers push the tag numbers up (two hex digits, the
     // separator's own code 0x1e, beyond 0xff)
     let many = rng.chance(1, if tier == Tier::Thorough { 8 } else { 25 });
@@ -241,7 +297,7 @@ pub fn workload(rng: &mut Rng, tier: Tier) -> Workload {
         likely_true: *rng.pick(&[4, 4, 3, 3, 2]),
         unsupported: 0,
         placeholder_strings: false,
-        risky_specials: rng.chance(1, 200),
+        risky_specials: risky,
         layout_variants: false,
     };
     let expr = gen::expression(rng, &cfg);
@@ -262,6 +318,8 @@ pub fn workload(rng: &mut Rng, tier: Tier) -> Workload {
         hash_key: rng.next_u64(),
         buffer_cap: *rng.pick(&[None, None, None, Some(8), Some(40), Some(300), Some(4096)]),
         flush_resets_first: rng.chance(1, 2),
+        probe,
+        stall_large_writes: None,
     }
 }
 
@@ -316,6 +374,55 @@ pub struct Prepared {
     pub seq_events: usize,
     pub printer_calls_per_file: Vec<usize>,
     pub uses_runtime_print: bool,
+    /// per destination: the whole stream of the sequential scan over all files
+    pub ref_streams: BTreeMap<String, String>,
+    /// per destination: record balance of scans over a subset of the files, computed on demand
+    /// (only needed when a break kept some files from being started)
+    subset_cache: Mutex<BTreeMap<Vec<usize>, BTreeMap<String, String>>>,
+}
+
+/// Streams per destination of a sequential scan over `subset` (in that order) of the files.
+fn sequential_streams(w: &Workload, forms: &[Sexp], subset: &[usize]) -> Result<BTreeMap<String, String>, EvalErr> {
+    let mut knobs = knobs_for(w, true);
+    knobs.partition = vec![subset.to_vec()];
+    let rt = Arc::new(Runtime::new(false, w.files.clone(), knobs));
+    rt.run_program(forms)?;
+    let dests = rt.destinations();
+    let mut out: BTreeMap<String, String> = BTreeMap::new();
+    for e in rt.log.lock().unwrap().iter() {
+        if let Ev::Write { port, chars, .. } = e {
+            out.entry(dest_of(&dests, *port)).or_default().push_str(chars);
+        }
+    }
+    Ok(out)
+}
+
+impl Prepared {
+    /// What a scan that started exactly the files in `started` must deliver on destination `d`,
+    /// as a list of streams whose records are to be added up: the sequential scan over all files
+    /// if all were started; otherwise the scan over no file plus, per started file, what a
+    /// single-file scan adds to it.
+    fn expected_streams(&self, w: &Workload, started: &BTreeSet<usize>, d: &str) -> (Vec<String>, Vec<String>) {
+        if started.len() == w.files.len() {
+            return (vec![self.ref_streams.get(d).cloned().unwrap_or_default()], vec![]);
+        }
+        let mut get = |subset: Vec<usize>| -> String {
+            let mut cache = self.subset_cache.lock().unwrap();
+            if !cache.contains_key(&subset) {
+                let streams = sequential_streams(w, &self.forms, &subset).unwrap_or_default();
+                cache.insert(subset.clone(), streams);
+            }
+            cache[&subset].get(d).cloned().unwrap_or_default()
+        };
+        let empty = get(vec![]);
+        let mut plus = vec![empty.clone()];
+        let mut minus = vec![];
+        for f in started {
+            plus.push(get(vec![*f]));
+            minus.push(empty.clone());
+        }
+        (plus, minus)
+    }
 }
 
 fn knobs_for(w: &Workload, sequential: bool) -> Knobs {
@@ -328,6 +435,7 @@ fn knobs_for(w: &Workload, sequential: bool) -> Knobs {
             honour_break: false,
             buffer_cap: w.buffer_cap,
             flush_resets_first: w.flush_resets_first,
+            stall_large_writes: None,
         }
     } else {
         Knobs {
@@ -338,6 +446,7 @@ fn knobs_for(w: &Workload, sequential: bool) -> Knobs {
             honour_break: true,
             buffer_cap: w.buffer_cap,
             flush_resets_first: w.flush_resets_first,
+            stall_large_writes: w.stall_large_writes,
         }
     }
 }
@@ -414,6 +523,19 @@ pub fn prepare_program(w: &Workload, program: String, io_keys: Option<Vec<u32>>)
             calls[f] = per.get("stdout").and_then(|s| decode_frames_plain(s)).map(|v| v.len()).unwrap_or(0);
         }
     }
+    let mut ref_streams: BTreeMap<String, String> = BTreeMap::new();
+    for e in &log {
+        if let Ev::Write { port, chars, .. } = e {
+            ref_streams.entry(dest_of(&dests, *port)).or_default().push_str(chars);
+        }
+    }
+    if io_keys.is_some() {
+        if let Some(s) = ref_streams.get("stdout") {
+            if decode_frames_plain(s).is_none() {
+                return Prep::Harness(format!("sequential framed output does not decode: {s:?}"));
+            }
+        }
+    }
     Prep::Ready(Box::new(Prepared {
         program,
         forms,
@@ -422,6 +544,8 @@ pub fn prepare_program(w: &Workload, program: String, io_keys: Option<Vec<u32>>)
         seq_events: log.len(),
         printer_calls_per_file: calls,
         uses_runtime_print,
+        ref_streams,
+        subset_cache: Mutex::new(BTreeMap::new()),
     }))
 }
 
@@ -459,10 +583,11 @@ pub fn execute(w: &Workload, prep: &Prepared, strategy: Strategy, seed: u64) -> 
     let forms = Arc::new(prep.forms.clone());
     let result: Arc<Mutex<Option<Result<(), EvalErr>>>> = Arc::new(Mutex::new(None));
     let (scheduler, shared) = SimScheduler::new(strategy, seed);
+    *rt.sched.lock().unwrap() = Some(shared.clone());
     let mut config = shuttle::Config::new();
     config.stack_size = 1 << 20;
     config.failure_persistence = shuttle::FailurePersistence::None;
-    config.max_steps = shuttle::MaxSteps::FailAfter(MAX_STEPS);
+    config.max_steps = shuttle::MaxSteps::FailAfter(step_cap(prep));
     config.silence_warnings = true;
     let runner = shuttle::Runner::new(scheduler, config);
     let (rt2, res2) = (rt.clone(), result.clone());
@@ -538,7 +663,7 @@ pub fn judge(w: &Workload, prep: &Prepared, ex: &Exec) -> (Verdict, Metrics) {
             return (vio("deadlock", format!("scanner threads deadlock: {p}")), m);
         }
         if p.contains("max_steps") {
-            return (vio("no-progress", format!("the scan did not finish within {MAX_STEPS} scheduler steps: {p}")), m);
+            return (vio("no-progress", format!("the scan did not finish within the step cap ({} scheduler steps): {p}", step_cap(prep))), m);
         }
         return (Verdict::Harness(format!("unexpected panic inside the simulated execution: {p}")), m);
     }
@@ -642,10 +767,14 @@ pub fn judge(w: &Workload, prep: &Prepared, ex: &Exec) -> (Verdict, Metrics) {
             }
         }
         let framed = prep.io_keys.is_some() && d == "stdout";
+        let chars: Vec<char> = stream.chars().collect();
+        let files_of = |a: usize, b: usize| -> BTreeSet<usize> { prov[a..b].iter().copied().filter(|f| *f != NO_FILE).collect() };
+        // what sequential scans of the same program deliver for the files that were started
+        let (plus_refs, minus_refs) = prep.expected_streams(w, &started, d);
         if framed {
-            // O1: the stream is a sequence of complete frames, each from one file
+            // O1: the stream is a sequence of complete frames with known tags
             let keys = prep.io_keys.as_ref().unwrap();
-            let chars: Vec<char> = stream.chars().collect();
+            let mut got: Vec<(String, char, usize, usize)> = vec![];
             let mut i = 0;
             let mut frame_start = 0;
             while i < chars.len() {
@@ -653,24 +782,11 @@ pub fn judge(w: &Workload, prep: &Prepared, ex: &Exec) -> (Verdict, Metrics) {
                     if i + 1 >= chars.len() {
                         return (vio("torn-frame", format!("destination {d}: the stream ends after a separator, the tag is missing; tail {}", show(&chars[frame_start..].iter().collect::<String>()))), m);
                     }
-                    let tag = chars[i + 1] as u32;
-                    let files: BTreeSet<usize> = prov[frame_start..=i + 1].iter().copied().collect();
-                    if files.len() != 1 {
-                        return (
-                            vio(
-                                "mixed-frame",
-                                format!(
-                                    "destination {d}: frame {} mixes output of files {:?}",
-                                    show(&chars[frame_start..=i + 1].iter().collect::<String>()),
-                                    files
-                                ),
-                            ),
-                            m,
-                        );
+                    let tag = chars[i + 1];
+                    if !keys.contains(&(tag as u32)) {
+                        return (vio("unknown-tag", format!("destination {d}: frame tag {:#x} is not a key of the destination table {keys:?}", tag as u32)), m);
                     }
-                    if !keys.contains(&tag) {
-                        return (vio("unknown-tag", format!("destination {d}: frame tag {tag:#x} is not a key of the destination table {keys:?}")), m);
-                    }
+                    got.push((chars[frame_start..i].iter().collect(), tag, frame_start, i + 2));
                     m.records += 1;
                     i += 2;
                     frame_start = i;
@@ -681,68 +797,125 @@ pub fn judge(w: &Workload, prep: &Prepared, ex: &Exec) -> (Verdict, Metrics) {
             if frame_start != chars.len() {
                 return (vio("torn-frame", format!("destination {d}: the stream ends inside a frame: {}", show(&chars[frame_start..].iter().collect::<String>()))), m);
             }
+            // O2: the multiset of frames equals what the threads emitted
+            let mut balance: BTreeMap<(String, char), i64> = BTreeMap::new();
+            for (refs, sign) in [(&plus_refs, -1i64), (&minus_refs, 1)] {
+                for r in refs.iter() {
+                    for (payload, tag) in decode_frames_plain(r).unwrap_or_default() {
+                        *balance.entry((payload, tag)).or_insert(0) += sign;
+                    }
+                }
+            }
+            for (payload, tag, _, _) in &got {
+                *balance.entry((payload.clone(), *tag)).or_insert(0) += 1;
+            }
+            if let Some(((payload, tag), n)) = balance.iter().find(|(_, n)| **n > 0) {
+                let (_, _, a, b) = got.iter().find(|g| g.0 == *payload && g.1 == *tag).unwrap();
+                let files = files_of(*a, *b);
+                let class = if files.len() > 1 { "mixed-frame" } else { "records-lost-or-altered" };
+                return (
+                    vio(
+                        class,
+                        format!(
+                            "destination {d}: frame {} (tag {:#x}) arrives {} time(s) more often than the threads emitted it{}",
+                            show(payload),
+                            *tag as u32,
+                            n,
+                            if files.len() > 1 { format!("; it mixes output of files {files:?}") } else { String::new() }
+                        ),
+                    ),
+                    m,
+                );
+            }
+            if let Some(((payload, tag), n)) = balance.iter().find(|(_, n)| **n < 0) {
+                return (
+                    vio("records-lost-or-altered", format!("destination {d}: frame {} (tag {:#x}) was emitted but is missing {} time(s) from the stream", show(payload), *tag as u32, -n)),
+                    m,
+                );
+            }
         } else {
-            // O4: every printer invocation's chunks are contiguous on this destination
+            let all_nl = prep.ref_streams.get(d).map_or(true, |s| s.is_empty() || s.ends_with('\n'))
+                && prep.ref_chars.iter().filter_map(|p| p.get(d)).all(|s| s.is_empty() || s.ends_with('\n'));
+            // is some printer invocation's output interrupted on this destination? (diagnostic)
             let mut seen_calls: BTreeMap<u64, usize> = BTreeMap::new();
+            let mut interrupted: Option<String> = None;
             for (k, (_, _, call, _)) in evs.iter().enumerate() {
                 if *call == 0 {
                     continue;
                 }
                 if let Some(prev) = seen_calls.get(call) {
-                    if *prev + 1 != k {
+                    if *prev + 1 != k && interrupted.is_none() {
                         let between: Vec<String> = evs[*prev + 1..k].iter().map(|e| format!("thread {} wrote {}", e.0, show(e.3))).collect();
-                        return (
-                            vio(
-                                "torn-line",
-                                format!("destination {d}: a record of thread {} (file {}) is interrupted: {}", evs[k].0, evs[k].1, between.join("; ")),
-                            ),
-                            m,
-                        );
+                        interrupted = Some(format!("a record of thread {} (file {}) is interrupted: {}", evs[k].0, evs[k].1, between.join("; ")));
                     }
                 }
                 seen_calls.insert(*call, k);
             }
             m.records += seen_calls.len() as u64;
-            // lines: when every sequential record on this destination ends in a newline, the
-            // stream must be a sequence of newline-terminated lines, each from one file
-            let all_nl = prep.ref_chars.iter().filter_map(|p| p.get(d)).all(|s| s.is_empty() || s.ends_with('\n'));
-            if all_nl && !stream.is_empty() {
-                let chars: Vec<char> = stream.chars().collect();
+            if all_nl {
+                // plain mode proper: a sequence of complete terminated lines whose multiset equals
+                // what the threads emitted
+                if !chars.is_empty() && *chars.last().unwrap() != '\n' {
+                    let start = chars.iter().rposition(|c| *c == '\n').map(|p| p + 1).unwrap_or(0);
+                    return (vio("torn-line", format!("destination {d}: the stream ends with an unterminated line {}", show(&chars[start..].iter().collect::<String>()))), m);
+                }
+                let mut balance: BTreeMap<String, i64> = BTreeMap::new();
+                for (refs, sign) in [(&plus_refs, -1i64), (&minus_refs, 1)] {
+                    for r in refs.iter() {
+                        for line in r.split_inclusive('\n') {
+                            *balance.entry(line.to_string()).or_insert(0) += sign;
+                        }
+                    }
+                }
+                let mut spans: Vec<(String, usize, usize)> = vec![];
                 let mut start = 0;
                 for (i, c) in chars.iter().enumerate() {
                     if *c == '\n' {
-                        let files: BTreeSet<usize> = prov[start..=i].iter().copied().collect();
-                        if files.len() > 1 {
-                            return (
-                                vio("mixed-line", format!("destination {d}: line {} mixes output of files {:?}", show(&chars[start..=i].iter().collect::<String>()), files)),
-                                m,
-                            );
-                        }
+                        let line: String = chars[start..=i].iter().collect();
+                        *balance.entry(line.clone()).or_insert(0) += 1;
+                        spans.push((line, start, i + 1));
                         start = i + 1;
                     }
                 }
-                if start != chars.len() {
-                    return (vio("torn-line", format!("destination {d}: the stream ends with an unterminated line {}", show(&chars[start..].iter().collect::<String>()))), m);
+                if let Some((line, _)) = balance.iter().find(|(_, n)| **n > 0) {
+                    let (_, a, b) = spans.iter().find(|s| s.0 == *line).unwrap();
+                    let files = files_of(*a, *b);
+                    let (class, why) = if files.len() > 1 {
+                        ("mixed-line", format!("it mixes output of files {files:?}"))
+                    } else if let Some(i) = &interrupted {
+                        ("torn-line", i.clone())
+                    } else {
+                        ("records-lost-or-altered", "no thread emitted it".to_string())
+                    };
+                    return (vio(class, format!("destination {d}: line {} is not one of the lines the threads emitted: {why}", show(line))), m);
+                }
+                if let Some((line, n)) = balance.iter().find(|(_, n)| **n < 0) {
+                    return (vio("records-lost-or-altered", format!("destination {d}: line {} was emitted but is missing {} time(s) from the stream", show(line), -n)), m);
+                }
+            } else {
+                // records without a terminator cannot be told apart by content: fall back to the
+                // provenance of the characters
+                if let Some(i) = interrupted {
+                    return (vio("torn-line", format!("destination {d}: {i}")), m);
+                }
+                for f in 0..w.files.len() {
+                    let got: String = evs.iter().filter(|e| e.1 == f).map(|e| e.3).collect();
+                    let want = if started.contains(&f) { prep.ref_chars[f].get(d).cloned().unwrap_or_default() } else { String::new() };
+                    if got != want {
+                        return (
+                            vio(
+                                "records-lost-or-altered",
+                                format!("destination {d}, file {f}: the concurrent run delivered {} but the sequential run of the same program delivers {}", show(&got), show(&want)),
+                            ),
+                            m,
+                        );
+                    }
+                }
+                let stray: String = evs.iter().filter(|e| e.1 == NO_FILE).map(|e| e.3).collect();
+                if !stray.is_empty() {
+                    return (vio("stray-output", format!("destination {d}: output outside any file evaluation: {}", show(&stray))), m);
                 }
             }
-        }
-        // O2 + O3: per file, exactly the characters of the sequential run, in order
-        for f in 0..w.files.len() {
-            let got: String = evs.iter().filter(|e| e.1 == f).map(|e| e.3).collect();
-            let want = if started.contains(&f) { prep.ref_chars[f].get(d).cloned().unwrap_or_default() } else { String::new() };
-            if got != want {
-                return (
-                    vio(
-                        "records-lost-or-altered",
-                        format!("destination {d}, file {f}: the concurrent run delivered {} but the sequential run of the same program delivers {}", show(&got), show(&want)),
-                    ),
-                    m,
-                );
-            }
-        }
-        let stray: String = evs.iter().filter(|e| e.1 == NO_FILE).map(|e| e.3).collect();
-        if !stray.is_empty() {
-            return (vio("stray-output", format!("destination {d}: output outside any file evaluation: {}", show(&stray))), m);
         }
     }
     for e in &ex.log {
@@ -784,7 +957,7 @@ pub fn run_block(seed: u64, first: u64, count: u64, tier: Tier) -> Result<BlockR
         let prep = match prepare(&w) {
             Prep::Ready(p) => p,
             Prep::Discard(why) => {
-                br.bump("discarded_runs", 1);
+                br.bump(if w.probe { "probe_workloads_set_aside" } else { "discarded_runs" }, 1);
                 br.digests.push(mix(&[hash_str(&why)]));
                 continue;
             }
@@ -918,14 +1091,34 @@ pub fn minimise(w0: &Workload, schedule0: &[u32], class: &str, seed: u64) -> (Wo
     let mut w = w0.clone();
     let mut schedule = schedule0.to_vec();
     let mut tests = 0u64;
-    let tries = 1500;
+    // minimisation is best effort under a wall-clock budget (it does not influence the verdict):
+    // large workloads get fewer schedule searches per candidate
+    let deadline = std::time::Instant::now() + std::time::Duration::from_secs(std::env::var("VERIF_MINIMISE_SECS").ok().and_then(|s| s.parse().ok()).unwrap_or(120));
+    let expired = || std::time::Instant::now() > deadline;
+    let tries = (3_000_000 / (schedule0.len().max(1))).clamp(20, 1500);
     // 1. shrink the workload, re-searching schedules for each candidate
     let mut changed = true;
-    while changed {
+    while changed && !expired() {
         changed = false;
         let mut candidates: Vec<Workload> = vec![];
+        // many files: try dropping whole halves and quarters first
+        if w.files.len() > 16 {
+            let n = w.files.len();
+            for (a, b) in [(0, n / 2), (n / 2, n), (0, n / 4), (n / 4, n / 2), (n / 2, 3 * n / 4), (3 * n / 4, n)] {
+                let keep: Vec<usize> = (0..n).filter(|f| *f < a || *f >= b).collect();
+                let mut c = w.clone();
+                c.files = keep.iter().map(|f| w.files[*f].clone()).collect();
+                for p in c.partition.iter_mut() {
+                    *p = p.iter().filter_map(|x| keep.iter().position(|k| k == x)).collect();
+                }
+                candidates.push(c);
+            }
+        }
         // drop one file
         for f in 0..w.files.len() {
+            if w.files.len() > 40 {
+                break;
+            }
             if w.files.len() <= 1 {
                 break;
             }
@@ -971,6 +1164,9 @@ pub fn minimise(w0: &Workload, schedule0: &[u32], class: &str, seed: u64) -> (Wo
             }
         }
         for c in candidates {
+            if expired() {
+                break;
+            }
             tests += 1;
             if let Some(s) = search(&c, class, mix(&[seed, tests]), tries) {
                 w = c;
@@ -984,7 +1180,10 @@ pub fn minimise(w0: &Workload, schedule0: &[u32], class: &str, seed: u64) -> (Wo
     //    switches one at a time
     if let Prep::Ready(p) = prepare(&w) {
         let mut rng = Rng::new(mix(&[seed, 77]));
-        for _ in 0..600 {
+        for _ in 0..tries.min(600) {
+            if expired() {
+                break;
+            }
             let stay = *rng.pick(&[90u64, 97, 99]);
             let ex = execute(&w, &p, Strategy::Sticky { stay }, rng.next_u64());
             tests += 1;
@@ -996,10 +1195,10 @@ pub fn minimise(w0: &Workload, schedule0: &[u32], class: &str, seed: u64) -> (Wo
         }
     }
     let mut improved = true;
-    while improved {
+    while improved && !expired() {
         improved = false;
         let mut i = 1;
-        while i < schedule.len() {
+        while i < schedule.len() && !expired() {
             if schedule[i] != schedule[i - 1] {
                 // let the previous thread keep running one step longer
                 let mut cand = schedule.clone();
@@ -1271,7 +1470,7 @@ fn selftest_workload(threads: usize, files: usize) -> Workload {
     for f in 0..files {
         partition[f % threads].push(f);
     }
-    Workload { expr: String::new(), files: fs, threads, partition, max_chunks: 1, chunk_seed: 1, hash_key: 1, buffer_cap: None, flush_resets_first: false }
+    Workload { expr: String::new(), files: fs, threads, partition, max_chunks: 1, chunk_seed: 1, hash_key: 1, buffer_cap: None, flush_resets_first: false, probe: false, stall_large_writes: None }
 }
 
 fn wrap_program(defs: &str, policy: &str) -> String {
@@ -1439,7 +1638,7 @@ pub fn selftests() -> Vec<(&'static str, bool, String)> {
         wrap_program(explicit_bad, "(call-with-relative-path pr)"),
         None,
         3000,
-        Some(&["mixed-line", "torn-line"]),
+        Some(&["mixed-line", "torn-line", "records-lost-or-altered"]),
     );
     out.extend(buffered);
     out
